@@ -138,6 +138,9 @@ def content_jobs(rnd, tier):
                 name, lay = "default", lays[0][1]
             U, P = UNITS11[(n + rep) % len(UNITS11)]
             perm = rnd.sample(range(len(h)), len(h))
+            if (n + rep) % 2:
+                # timestamps with a sub-second part (microseconds), different from row to row
+                h = [dict(x, us=(p * 370003 + 250000 + 7 * n) % 1000000) for p, x in enumerate(h)]
             rows = odsio.sheet_rows(h, lay, rnd, order=tuple(orders[(n + rep) % 6]), blanks=tuple(rnd.randrange(3) for _ in range(4)), row_perm=perm, decoys=rnd.random() < 0.7)
             for r in rows:
                 r.pop("pos", None)
